@@ -327,6 +327,8 @@ def correspond(ctx):
   correspond_bundles(ctx, vals)
   ctx.log('bundles evaluated')
   ctx.extra['cases_in_coq'] = len(enc_cases) + len(dec_cases)
+  ctx.extra['translator_validation'] = ('gen_encode_object on %d and gen_decode_object on %d cases (coq/gen/Objtypes_gen.v) evaluated by vm_compute '
+                                        'against objtypes.encode_object / decode_object, in the same case files as the hand model' % (len(enc_cases), len(dec_cases)))
 
 
 def action_lit(b, a):
